@@ -65,7 +65,9 @@ MkCase(s, c) ==
 
 (* values for the CONSTANT Prefix / Cuts that a .cfg file cannot spell *)
 NoPrefix == <<>>
-ChainPrefix == <<"L1", "Z", "Pfirst">>
+(* "a" + a pointer to it + 58 pointers each to the one before: the chain configuration appends up to 8 more,
+   so the walks from the last items make 60..67 jumps and cross the limit of 64 *)
+ChainPrefix == <<"L1", "Z", "Pfirst">> \o [i \in 1..58 |-> "Pprev"]
 NoCuts == {}
 
 Init == its = Prefix /\ cut = 0 /\ cs = MkCase(Prefix, 0)
